@@ -430,10 +430,10 @@ class Interp:
                 # a fold over a sequence of unknown length: the loop `acc = init; for x in seq: acc = fn(acc, x)`
                 if len(args) < 3:
                     raise Unsupported("functools.reduce over a symbolic sequence without initial value")
-                holder = {"__module__": "pfhedge", "__parent__": None, "__cls__": None, "__acc__": args[2], "__fn__": fn_, "__seq__": args[1]}
-                loop = ast.parse("for __x__ in __seq__:\n    __acc__ = __fn__(__acc__, __x__)\n").body[0]
+                holder = {"__module__": "pfhedge", "__parent__": None, "__cls__": None, "reduce_acc_": args[2], "reduce_fn_": fn_, "reduce_seq_": args[1]}
+                loop = ast.parse("for reduce_x_ in reduce_seq_:\n    reduce_acc_ = reduce_fn_(reduce_acc_, reduce_x_)\n").body[0]
                 self.exec_stmt(loop, holder)
-                return holder["__acc__"]
+                return holder["reduce_acc_"]
             it_ = list(seq_)
             acc_ = args[2] if len(args) > 2 else it_.pop(0)
             for x_ in it_:
